@@ -91,6 +91,9 @@ def fmt_jsdoc_union(type_strings):
     """
     Returns a JSDoc union of the given type strings.
     """
+    if not type_strings:
+        # e.g. a closed union without any tag
+        return 'undefined'
     return '(' + '|'.join(type_strings) + ')' if len(type_strings) > 1 else type_strings[0]
 
 
